@@ -118,18 +118,18 @@ def fee_withdraw(R, env, prog, sites, RULE):
 
 
 
-def recover_and_rest(R, env, prog, sites):
+def recover_only(R, env, prog, sites, RULE):
     h = sites["RecoverPendingIbcTransfers"]
     hk = h.body.key
     rms = [op for op in storage_ops_deep(prog, h, env.depth) if op["kind"] == "w" and ns_of(prog, op["args"][0]) == "inflight"]
     trs = shared.transfers(prog, h, env)
-    R.ob("C02.R4", "recover:one-resend", len(trs) == 1, "found %d IBC transfers in recover" % len(trs), fn=hk)
-    R.ob("C02.R4", "recover:removes", len(rms) >= 1 and all(o["op"] == "remove" for o in rms), "INFLIGHT_PACKETS writes in recover: %s" % [o["op"] for o in rms], fn=hk)
+    R.ob(RULE, "recover:one-resend", len(trs) == 1, "found %d IBC transfers in recover" % len(trs), fn=hk)
+    R.ob(RULE, "recover:removes", len(rms) >= 1 and all(o["op"] == "remove" for o in rms), "INFLIGHT_PACKETS writes in recover: %s" % [o["op"] for o in rms], fn=hk)
     elem = None
     for op in rms:
         k = op["args"][2]
         good = k[0] == "field" and k[2] == "sequence" and k[1][0] == "payload" and k[1][1][0] == "call" and k[1][1][1].endswith("Iterator::next")
-        R.ob("C02.R4", "recover:remove-by-own-sequence", good, "packet removed under key %s, expected <element>.sequence of the iteration" % fmt(k)[:160], loc=op["loc"], fn=hk)
+        R.ob(RULE, "recover:remove-by-own-sequence", good, "packet removed under key %s, expected <element>.sequence of the iteration" % fmt(k)[:160], loc=op["loc"], fn=hk)
         if good:
             elem = k[1]
     for t in trs:
@@ -137,21 +137,25 @@ def recover_and_rest(R, env, prog, sites):
         # amount = total.amount, a loop-carried sum: every += operand must be <same element>.amount.amount
         adds = [s for s in subterms(amt) if s[0] == "mut" and s[2].endswith("AddAssign::add_assign")] if amt is not None else []
         good = bool(adds) and elem is not None and all(a[3][0] == ("field", ("field", elem, "amount"), "amount") for a in adds)
-        R.ob("C02.R4", "recover:sum-of-removed", good, "re-sent amount accumulates %s; expected `+= <element>.amount.amount` of the SAME element that is removed" % [fmt(a[3][0])[:100] for a in adds][:3], loc=t["loc"], fn=hk)
+        R.ob(RULE, "recover:sum-of-removed", good, "re-sent amount accumulates %s; expected `+= <element>.amount.amount` of the SAME element that is removed" % [fmt(a[3][0])[:100] for a in adds][:3], loc=t["loc"], fn=hk)
         zero = [s for s in subterms(amt) if s[0] == "call" and s[1] == "cosmwasm_std::Coin::new"] if amt is not None else []
-        R.ob("C02.R4", "recover:sum-starts-at-zero", bool(zero) and all(const_int(z[2][0]) == 0 for z in zero), "the running total does not start at 0", loc=t["loc"], fn=hk)
+        R.ob(RULE, "recover:sum-starts-at-zero", bool(zero) and all(const_int(z[2][0]) == 0 for z in zero), "the running total does not start at 0", loc=t["loc"], fn=hk)
         # removal and addition in the same loop body: both blocks on every path through the iteration
-        R.ob("C02.R4", "recover:resend-on-every-success-path", must_pass(h, t["root_bb"]) and shared.response_contains_call_at(h, t["root_bb"]), "recover can succeed without re-sending", loc=t["loc"], fn=hk)
+        R.ob(RULE, "recover:resend-on-every-success-path", must_pass(h, t["root_bb"]) and shared.response_contains_call_at(h, t["root_bb"]), "recover can succeed without re-sending", loc=t["loc"], fn=hk)
         rcv = t["receiver"]
         rgood = rcv is not None and rcv[0] == "call" and rcv[1] == "std::option::Option::unwrap_or" and loaded_field(prog, rcv[2][1], "config", ["native_chain_config", "staker_address"], CRATE)
-        R.ob("C02.R4", "recover:receiver", rgood, "re-send goes to %s, expected validated receiver or the configured staker" % fmt(rcv or ("none",))[:160], loc=t["loc"], fn=hk)
+        R.ob(RULE, "recover:receiver", rgood, "re-send goes to %s, expected validated receiver or the configured staker" % fmt(rcv or ("none",))[:160], loc=t["loc"], fn=hk)
     # pairing inside the loop: the add_assign call block and the remove block dominate each other's loop back edge
     for op in rms:
         addbbs = [bi for bi, t_, args in call_sites(h, lambda nm: nm.endswith("AddAssign::add_assign"))]
         heads = [bi for bi, t_, args in call_sites(h, lambda nm: nm == "std::iter::Iterator::next") if elem is not None and norm(h.T.call_term(t_, bi)) == norm(elem[1])]
         paired = bool(addbbs) and len(heads) == 1 and all(pair_in_iteration(h, op["root_bb"], ab, heads[0]) for ab in addbbs)
-        R.ob("C02.R4", "recover:remove-and-add-paired", paired, "a packet can be added to the total without being removed (or removed without being added) in one iteration", loc=op["loc"], fn=hk)
+        R.ob(RULE, "recover:remove-and-add-paired", paired, "a packet can be added to the total without being removed (or removed without being added) in one iteration", loc=op["loc"], fn=hk)
 
+
+
+def recover_and_rest(R, env, prog, sites):
+    recover_only(R, env, prog, sites, "C02.R4")
     # ------------------------------------------------------------ R5
     h = sites["ReceiveUnstakedTokens"]
     hk = h.body.key
